@@ -82,6 +82,13 @@ def run(ctx):
     for _ in range(400 if th else 80):
         g = amlgen.G(rng)
         fields.append(amlgen.prog(g, g.make("Field", g.leaf)))
+    # field lists with one entry width at every PkgLength boundary (the exclusive form), bare and inside a container,
+    # and every call site again as the child of a container: a length inside another length
+    g = amlgen.G(rng)
+    for leaf in amlgen.size_leaves(g):
+        if leaf["t"] == "Field":
+            fields.append(amlgen.prog(g, leaf, tag="Field/width"))
+    sites += [amlgen.wrapped(p, i) for i, p in enumerate(sites + fields) if not p.get("summary")]
     progs += sites + fields
     ctx.samples = [{"fam": "pkglen", "ns": ns[60:70], "incl": True}, sites[0], fields[0]]
     ctx.n = 2 * len(ns) + len(sites) + len(fields)
